@@ -63,10 +63,6 @@ impl EventGen for ReuseElement {
             if let Some(ref_class) = &ref_class {
                 probe.add_class(ref_class);
             }
-            // (the reuse element's style is the instance's: see below)
-            if reuse_element.has_attr("style") {
-                probe.pop_attr("style");
-            }
             context.apply_defaults(&mut probe);
             // (the classes the reuse element brings have been evaluated with it)
             let mut classes = own_classes.clone();
@@ -140,9 +136,12 @@ impl EventGen for ReuseElement {
         instance_element.set_src_line(reuse_element.src_line);
         if let Some(inst_style) = reuse_element.get_attr("style") {
             // (after the style of any defaults, as for an element's own style)
-            let style = match instance_element.get_attr("style").filter(|_| wants_defaults) {
-                Some(default_style) => format!("{default_style}; {inst_style}"),
-                None => inst_style,
+            // (after the template's own style, and that of any defaults)
+            let style = match instance_element.get_attr("style") {
+                Some(own_style) if !own_style.trim().is_empty() => {
+                    format!("{}; {inst_style}", own_style.trim().trim_end_matches(';'))
+                }
+                _ => inst_style,
             };
             instance_element.set_attr("style", &style);
         }
